@@ -16,6 +16,7 @@ typedef struct {
     int align4;     /* workspace address is 4 (mod 8) */
     long fault_k;   /* fail the k-th SUPERLU_MALLOC issued from <p>memory.c (0 = none) */
     int driver;     /* 0 = gstrf, 1 = gssvx, 2 = gsitrf (ILU) */
+    int ref;        /* index of the configuration this one must agree with */
 } scfg_t;
 
 #define TR_W 8      /* jcol nzlumax nzumax nzlmax num_expansions used top1 top2 */
